@@ -484,6 +484,9 @@ def is_str_valued(t):
 
 
 def step(t):
+    if t[0] == 'accum' and t[1][0] == 'array' and t[1][3] == ('tuple', ()) and t[2] and all(op == 'addidx' and v[0] == 'tuple' and len(v[1]) == 1 for op, _, v, _ in t[2]):
+        # slots[k] += (x,) on a table of empty tuples: the group of the x filed under k, like slots[k].append(x) on lists
+        return ('accum', ('array', t[1][1], t[1][2], ('list', ())), tuple(('appendidx', k_, v_[1][0], ch_) for _, k_, v_, ch_ in t[2])) + tuple(t[3:])
     if t[0] == 'not' and t[1][0] == 'cmp' and t[1][1] in NEG_CMP:
         return ('cmp', NEG_CMP[t[1][1]], t[1][2], t[1][3])
     if t[0] == 'fstr' and len(t[1]) == 1 and t[1][0][0] in ('idx', 'ite') and is_str_valued(t[1][0]):
